@@ -22,6 +22,7 @@ def is_take(it):
 
 
 def run(ctx, db, tier):
+    from . import C11
     handle_linear(ctx, db)
     entries(ctx, db)
     shared.claimed_promise(ctx, db, 'C04.claimed-promise')
@@ -34,14 +35,15 @@ def run(ctx, db, tier):
     bound_writers(ctx, db)
     join_delivers(ctx, db)
     start_is_eager(ctx, db)
-    from . import C11
+    bound_party_optional(ctx, db)
+    C11.closures(ctx, db, 'C04.pool-closure-owns-coroutine', 'C04.pool-closure-runs-once')
     C11.stop(ctx, db, 'C04.pool-drops-unstarted-outside-lock')
     if ctx.cfg == 'assert':
         witness.positive(ctx, 'C04.types', 'C04_pos.cpp', 'initial_suspend is suspend_always, final_suspend is noexcept, async<T> is move-only, join()/wait() hand out values that outlive the temporary future')
         witness.negative(ctx, 'C04.types-neg', 'C04_neg.cpp', 'copying an async object must not compile')
 
 
-OBSERVING = ('cocls::future::wait', 'cocls::future::join', 'cocls::future::force_wait', 'cocls::future::value', 'cocls::co_awaiter::wait', 'cocls::co_awaiter::force_wait')
+OBSERVING = ('cocls::future::wait', 'cocls::future::join', 'cocls::future::force_wait', 'cocls::future::value', 'cocls::future::operator*', 'cocls::future::operator->', 'cocls::co_awaiter::wait', 'cocls::co_awaiter::force_wait')
 WAIT_ONLY = ('cocls::future::sync', 'cocls::future::force_sync', 'cocls::co_awaiter::sync', 'cocls::co_awaiter::force_sync')
 
 
@@ -89,7 +91,8 @@ def start_is_eager(ctx, db):
         bad = None
         for tr in trs:
             sp = index_of(tr, callee_is('cocls::async::start_promise'))
-            now = [i for i, c in enumerate(tr) if c.k == 'call' and norm(c.get('callee')) in ('std::coroutine_handle::resume', 'std::coroutine_handle::operator()', 'cocls::coro_queue::install_queue_and_resume') and i > sp]
+            now = [i for i, c in enumerate(tr) if c.k == 'call' and norm(c.get('callee')) in ('std::coroutine_handle::resume', 'std::coroutine_handle::operator()', 'cocls::coro_queue::install_queue_and_resume', 'cocls::coro_queue::install_queue_and_call') and i > sp
+                   and not (norm(c.get('callee')).startswith('std::coroutine_handle') and any(x.k == 'call' and norm(x.get('callee')) == 'cocls::coro_queue::install_queue_and_call' for x in tr[sp:i]))]
             later = [c for c in tr[sp + 1:] if c.k == 'call' and norm(c.get('callee')) in ('cocls::coro_queue::resume', 'cocls::coro_queue::push', 'cocls::coro_queue::queue_impl::push', 'cocls::coro_queue::queue_impl::resume') and not c.get('expanded')]
             if sp < 0:
                 continue
@@ -303,3 +306,44 @@ def refused_start_empty(ctx, db):
         ctx.ob(rid, f, f['key'], bad is None, 'handle forwarded iff non-null' + ('' if not bad else ' -- ' + bad[0]), desc=bad[0][:100] if bad else None, trace=fmt_trace(bad[1]) if bad else None)
     if n == 0:
         raise Broken('async::start(promise&) not instantiated')
+
+
+def bound_party_optional(ctx, db):
+    """a detached coroutine is bound to nobody: async_promise::_future is null for it.  Every delivery (value, exception, resolution) goes
+    through that pointer and must be skipped when it is null"""
+    rid = ctx.rule('C04.detached-delivers-to-nobody', 'GUARDED', 'async_promise (resolve, unhandled_exception, the final awaiter): the bound-future pointer _future - or a local copy of it - is '
+                   'dereferenced only on the edge where it tested non-null: the body of a detached coroutine may return or throw without a party to deliver to', floor=3)
+    T = htracer(db)
+    seen = set(); nsite = 0
+    for f in db.all_instances():
+        if not f['nname'].startswith('cocls::async_promise::') or f['key'] in seen or f.get('kind') in ('ctor', 'dtor'):
+            continue
+        if not any('_future' in ((e.get('recv') or '') + (e.get('path') or '') + (e.get('init') or '')) for e in f.events()):
+            continue
+        seen.add(f['key'])
+        trs = T.traces(f)
+        ctx.paths(rid, len(trs))
+        bad = {}; sites = set()
+        for tr in trs:
+            known = set(); copies = set()
+            for i, it in enumerate(tr):
+                if it.k == 'decl' and (it.get('init') or '').endswith('_future'):
+                    copies.add(it.get('var') if (it.get('var') or '').startswith('local:') else 'local:' + (it.get('var') or ''))
+                elif it.k == 'branch':
+                    nt = null_test(tr, i)
+                    if nt and ((nt[0] or '').endswith('_future') or nt[0] in copies):
+                        (known.add if nt[1] else known.discard)(nt[0])
+                elif it.k == 'call' and it.get('recv'):
+                    m = re.fullmatch(r'\*\((.*)\)', it['recv'])
+                    p_ = m.group(1) if m else it['recv']          # p->f(): the receiver path is the pointer itself
+                    if p_ and (p_.endswith('_future') or p_ in copies):
+                        sites.add(it.get('loc'))
+                        if p_ not in known:
+                            bad.setdefault(it.get('loc'), (p_, tr))
+        for loc in sorted(sites):
+            nsite += 1
+            b = bad.get(loc)
+            ctx.ob(rid, f, loc, b is None, 'the bound future is used only where it tested non-null' + ('' if not b else ' -- %s is dereferenced on a path that did not test it: a detached coroutine (no bound party) crashes here' % b[0]),
+                   desc='bound-future pointer dereferenced without a null test in %s' % f['nname'] if b else None, trace=fmt_trace(b[1]) if b else None)
+    if nsite == 0:
+        raise Broken('no delivery through async_promise::_future found: anchor changed')
